@@ -1468,6 +1468,8 @@ func FunExpr(query *Query, current Map, expr *sqlparser.FuncExpr, opts ...ExprOp
 				err = e
 				return e
 			}
+			// the awaited expression may itself have started asynchronous calls
+			query.wg.Wait()
 			rs = slice[0]
 			return nil
 		})
